@@ -37,6 +37,29 @@ def log(*a):
     print(*a, flush=True)
 
 
+# --------------------------------------------------------------------------- apalache (inductive invariants over unbounded integers)
+
+def apalache_inductive(module, workdir, inv="IndInv", timeout=900, path=None):
+    """Init => inv (length 0) and inv /\\ Next => inv' (length 1, --init=IndInit). Returns (ok, detail)."""
+    src = path or os.path.join(SPEC, "apalache", module + ".tla")
+    os.makedirs(workdir, exist_ok=True)
+    res = []
+    for init, length in (("Init", 0), ("IndInit", 1)):
+        cmd = ["apalache-mc", "check", "--cinit=ConstInit", "--init=" + init, "--inv=" + inv, "--length=%d" % length, "--out-dir=" + os.path.join(workdir, "apalache_out"), src]
+        try:
+            p = subprocess.run(cmd, capture_output=True, text=True, timeout=timeout, cwd=os.path.dirname(src))
+        except (subprocess.TimeoutExpired, FileNotFoundError) as e:
+            raise ToolError("apalache %s: %s" % (module, e))
+        out = p.stdout + p.stderr
+        if "EXITCODE: OK" in out:
+            res.append((init, True))
+        elif "EXITCODE: ERROR (12)" in out:
+            res.append((init, False))
+        else:
+            raise ToolError("apalache %s (%s): unexpected outcome\n%s" % (module, init, out[-1500:]))
+    return all(ok for _, ok in res), res
+
+
 # --------------------------------------------------------------------------- harness
 
 def build_harness():
